@@ -15,8 +15,10 @@ import VotelibProofs.Lemmas.C12Star
 import VotelibProofs.Lemmas.C12Trunc
 import VotelibProofs.Lemmas.C12Alloc
 import VotelibProofs.Lemmas.C12AllocSpec
+import VotelibProofs.Lemmas.C12AllocTie
 import VotelibProofs.Lemmas.C12MJ
 import VotelibProofs.Lemmas.C12MJSpec
+import VotelibProofs.Lemmas.C12MJWF
 import VotelibModel.Gen.Quota
 namespace VL.C12
 open VL VL.Appr VL.Score VL.C09
@@ -539,19 +541,54 @@ theorem mj_elects_highest_medians (tb : TieBreaking) (cfg : Cfg) (votes : SProfi
             injection hok with hok; subst hok
             exact final broken (fun s hs => SlotIn.mono htiedkeys (tiebreakPlus_slotIn _ _ _ hb s hs))
 
+/-- **Fuel adequacy** (`mj_fuel_adequate`).  The model of `_tiebreak_default` is given `Σ counts + #candidates + 1`
+    units of fuel by `majorityJudgment` (`tableFuel`).  On every table of grade dicts with distinct candidates, distinct
+    grades and non-negative counts that suffices: each pass of the loop either ends, or splits off at least one clear
+    winner (the table shrinks), or removes at least one grade from every candidate (the counts shrink); the fuel error is
+    never returned.  So the fuel bound is not a restriction of the model. -/
+theorem mj_fuel_adequate (fuel : Nat) (scores : ScoreTable) (n : Nat) (hwf : TableWF scores)
+    (hfuel : tableFuel scores ≤ fuel) : tiebreakDefault fuel scores n ≠ .error (.other "Fuel") :=
+  tiebreakDefault_fuel fuel scores n hwf hfuel
+
 /-- **The default tie-break equals the documented rule.**  `_tiebreak_default` removes `_closest_median_change` median
     grades from every tied candidate per step; the documented (Balinski-Laraki) rule removes ONE median grade per step
     until the medians separate a group of winners (`tiebreakOneByOne`).  On every table of grade dicts with distinct
     candidates, distinct grades and non-negative counts (`TableWF`, decidable; true of everything `corrected_scores`
-    builds) the two agree: whatever the code returns — a selection, `VotingSystemError('cannot determine clear cutoff')`,
-    or the `StatisticsError` crash — the one-at-a-time rule returns as well.  (The hypothesis `x ≠ Fuel` only excludes
-    the model's own fuel bound, which the correspondence never reaches.)  The batching is therefore sound on ALL inputs,
-    in particular for tied candidates holding equally many grades, where the rule is well defined; for unequal numbers
-    of grades it is the rule itself that breaks down (witnesses below). -/
-theorem mj_default_eq_spec (fuel : Nat) (scores : ScoreTable) (n : Nat) (x : Except Err (List Slot))
-    (hwf : TableWF scores) (h : tiebreakDefault fuel scores n = x) (hx : x ≠ .error (.other "Fuel")) :
-    ∃ fuel', tiebreakOneByOne fuel' scores n = x :=
-  default_eq_oneByOne fuel scores n x hwf h hx
+    builds), with the fuel `majorityJudgment` passes (or more), the two agree: whatever the code returns — a selection,
+    `VotingSystemError('cannot determine clear cutoff')`, or the `StatisticsError` crash — the one-at-a-time rule returns
+    as well.  The batching is therefore sound on ALL inputs, in particular for tied candidates holding equally many
+    grades, where the rule is well defined; for unequal numbers of grades it is the rule itself that breaks down
+    (witnesses below). -/
+theorem mj_default_eq_spec (fuel : Nat) (scores : ScoreTable) (n : Nat) (hwf : TableWF scores)
+    (hfuel : tableFuel scores ≤ fuel) :
+    ∃ fuel', tiebreakOneByOne fuel' scores n = tiebreakDefault fuel scores n :=
+  default_eq_oneByOne fuel scores n _ hwf rfl (tiebreakDefault_fuel fuel scores n hwf hfuel)
+
+/-- **Everything `corrected_scores` builds is a well-formed table.**  For votes with non-negative counts in which every
+    ballot grades a candidate at most once (`VotesOK`, decidable) and a truncation fraction that is not negative
+    (`TruncOK`), the corrected table — after min_count, unscored value and truncation — has distinct candidates, distinct
+    grades per candidate and non-negative counts; so has the table of tied candidates `MajorityJudgment.evaluate` hands to
+    its tie-breaker.  Hence `mj_fuel_adequate` and `mj_default_eq_spec` apply to the evaluator itself. -/
+theorem mj_corrected_scores_wf (cfg : Cfg) (htr : TruncOK cfg.trunc) (votes : SProfile) (hok : VotesOK votes)
+    (t : ScoreTable) (h : correctedScores cfg votes = .ok t) (T : List Cand) :
+    TableWF t ∧ TableWF ((sortDedup T).filterMap (fun c => (tableGet t c).map (fun cs => (c, cs)))) :=
+  ⟨correctedScores_wf htr hok h, tied_wf (correctedScores_wf htr hok h) T⟩
+
+/-- **`MajorityJudgment.evaluate` never runs out of the model's fuel**, with either tie-breaking rule, on every profile
+    (`VotesOK`) and for all settings: the fuel bound of the model is not a restriction. -/
+theorem mj_never_out_of_fuel (tb : TieBreaking) (cfg : Cfg) (htr : TruncOK cfg.trunc) (votes : SProfile)
+    (hok : VotesOK votes) (n : Nat) : majorityJudgment tb cfg votes n ≠ .error (.other "Fuel") :=
+  majorityJudgment_fuel tb cfg htr votes hok n
+
+/-- the tie-break call inside `MajorityJudgment.evaluate` (default rule) is the one-grade-at-a-time rule on the tied table -/
+theorem mj_evaluator_tiebreak_eq_spec (cfg : Cfg) (htr : TruncOK cfg.trunc) (votes : SProfile) (hok : VotesOK votes)
+    (t : ScoreTable) (h : correctedScores cfg votes = .ok t) (T : List Cand) (k : Nat) :
+    let tied := (sortDedup T).filterMap (fun c => (tableGet t c).map (fun cs => (c, cs)))
+    ∃ fuel', tiebreakOneByOne fuel' tied k = tiebreakDefault (tableFuel tied) tied k := by
+  intro tied
+  exact mj_default_eq_spec (tableFuel tied) tied k (tied_wf (correctedScores_wf htr hok h) T) (le_refl _)
+
+example : VotesOK [([(1, 1), (2, 2), (3, 1)], 2), ([(3, 2)], 1)] ∧ TruncOK (Trunc.frac (1 / 4)) := by decide +kernel
 
 /-- the arithmetic core: fewer removals than `_closest_median_change` never move a median (and the grades suffice) -/
 theorem mj_median_stable_below_closest_change (cs : CScores) (hnd : (ckeys cs).Nodup) (hpos : ∀ p ∈ cs, 0 ≤ p.2)
@@ -778,6 +815,49 @@ example : allocSpec Gen.Quota.hare [([(0, 5)], 2), ([(1, 3)], 1)] 2 = some [0, 1
 example : allocSpec Gen.Quota.droop [([(1, 2)], 2), ([(0, 4), (1, 3)], 1)] 2 = none := by decide +kernel
 example : ScoreProfileWF [([(0, 5), (1, 2), (2, 1)], 2), ([(0, 1), (1, 3), (2, 0)], 2)] := by
   refine ⟨by decide +kernel, ?_, ?_⟩ <;> intro bn hbn <;> simp at hbn <;> rcases hbn with rfl | rfl <;> decide +kernel
+
+/-! #### rounds with tied leaders -/
+
+/-- **Who the tied leaders are** (order-independent): when the round's `get_n_best(sums, 1)` is a tie object, its
+    members are exactly the graded candidates whose weighted score sum nobody exceeds. -/
+theorem allocated_tied_leaders (cv : WProfile) (hwf : BallotsWF cv) (T : List Cand) (rest : List Slot)
+    (hbest : getNBest (sumScores cv) 1 = Slot.tie T :: rest) (c : Cand) :
+    c ∈ sortDedup T ↔ c ∈ gradedCands cv ∧ ∀ d ∈ gradedCands cv, scoreSum cv d ≤ scoreSum cv c :=
+  alloc_tie_members hwf hbest c
+
+/-- **More tied leaders than seats left: the tie is reported** for all remaining seats and the loop ends — whatever
+    the iteration order of the tie (order-independent). -/
+theorem allocated_report_tie (q : Rat) (fuel : Nat) (cv : WProfile) (el : Elected) (rem : Nat) (T : List Cand)
+    (rest : List Slot) (hrem : rem ≠ 0) (hbest : getNBest (sumScores cv) 1 = Slot.tie T :: rest)
+    (hlt : rem < (sortDedup T).length) :
+    allocLoop q (fuel + 1) cv el rem = .ok (bump el (Key.tie (sortDedup T)) rem) :=
+  alloc_report_tie q fuel cv el rem T rest hrem hbest hlt
+
+/-- **Enough seats for all tied leaders: every one of them is elected**, one seat each (this never fails: the spending
+    cannot raise), and the number of seats left drops by their number.  This much is independent of the order in which
+    the tie is iterated; the ONLY order-dependent datum is the ballot state `cv'` the loop continues with, because the
+    leaders' quotas are spent one after the other on ballots they may share (`allocated_tie_order_witness`). -/
+theorem allocated_elect_all_tied (q : Rat) (fuel : Nat) (cv : WProfile) (el : Elected) (rem : Nat) (T : List Cand)
+    (rest : List Slot) (hrem : rem ≠ 0) (hbest : getNBest (sumScores cv) 1 = Slot.tie T :: rest)
+    (hge : (sortDedup T).length ≤ rem) (hnew : ∀ c ∈ sortDedup T, Key.cand c ∉ el.map (·.1)) :
+    ∃ cv', allocLoop q (fuel + 1) cv el rem =
+      allocLoop q fuel cv' (el ++ (sortDedup T).map (fun c => (Key.cand c, 1))) (rem - (sortDedup T).length) :=
+  alloc_elect_all q fuel cv el rem T rest hrem hbest hge hnew
+
+/-- the candidates 0 and 1 exchanged -/
+def swap01 (c : Cand) : Cand := if c = 0 then 1 else if c = 1 then 0 else c
+
+/-- **Where allocated score is order-dependent** (the open finding, precisely).  In this profile candidates 0 and 1 tie for
+    the first seat with three seats to fill, so both are elected and their quotas are spent in iteration order (ascending
+    id in the model, hash order in CPython).  Renaming the two tied leaders into each other — the same election — changes
+    the outcome for the OTHER candidates: candidate 2 ties with 3 for the last seat in one naming and wins it outright
+    in the other.  The outcome is therefore not a function of the election alone. -/
+theorem allocated_tie_order_witness :
+    let P : SProfile := [([(0, 1), (1, 0), (2, 0), (3, 0)], 4), ([(0, 1), (1, 2), (2, 2), (3, 0)], 3),
+      ([(0, 1), (1, 2), (2, 0), (3, 2)], 1)]
+    allocatedSelector Gen.Quota.hare P 3 = .ok [Key.cand 0, Key.cand 1, Key.tie [2, 3]] ∧
+    allocatedSelector Gen.Quota.hare (P.map (fun bn => (bn.1.map (fun p => (swap01 p.1, p.2)), bn.2))) 3
+      = .ok [Key.cand 0, Key.cand 1, Key.cand 2] := by decide +kernel
 
 /-- the selector on ballots with arbitrary exact weights (what the driver executes, also for `Fraction` counts and
     counts beyond 2^53) is the integer-count selector on integer counts, so every theorem above speaks about it -/
